@@ -1,8 +1,10 @@
 package graph
 
 import (
+	"cmp"
 	"errors"
 	"fmt"
+	"slices"
 
 	"gonum.org/v1/gonum/graph"
 	"gonum.org/v1/gonum/graph/encoding"
@@ -61,14 +63,17 @@ func (g *AuthorizationModelGraph) Reversed() (*AuthorizationModelGraph, error) {
 		multi.NewDirectedGraph(), map[string]int64{},
 	}
 
-	// Add all nodes as-is.
-	iterNodes := g.Nodes()
-	for iterNodes.Next() {
-		nextNode := iterNodes.Node()
+	// Add all nodes as-is. The iterators of the multigraph are map backed, so sort by id to get a stable order.
+	nodes := graph.NodesOf(g.Nodes())
+	slices.SortFunc(nodes, func(a, b graph.Node) int { return cmp.Compare(a.ID(), b.ID()) })
+
+	for _, nextNode := range nodes {
 		graphBuilder.AddNode(nextNode)
 	}
 
 	// Add all edges as-is, but with their From and To flipped.
+	lines := []graph.Line{}
+
 	iterEdges := g.Edges()
 	for iterEdges.Next() {
 		nextEdge, ok := iterEdges.Edge().(multi.Edge)
@@ -76,15 +81,20 @@ func (g *AuthorizationModelGraph) Reversed() (*AuthorizationModelGraph, error) {
 			return nil, fmt.Errorf("%w: could not cast to multi.Edge", ErrBuildingGraph)
 		}
 		// NOTE: because we use a multigraph, one edge can include multiple lines, so we need to add each line individually.
-		iterLines := nextEdge.Lines
-		for iterLines.Next() {
-			nextLine := iterLines.Line()
-			casted, ok := nextLine.(*AuthorizationModelEdge)
-			if !ok {
-				return nil, fmt.Errorf("%w: could not cast to AuthorizationModelEdge", ErrBuildingGraph)
-			}
-			graphBuilder.AddEdge(nextLine.To(), nextLine.From(), casted.edgeType, casted.tuplesetRelation, casted.conditions)
+		lines = append(lines, graph.LinesOf(nextEdge.Lines)...)
+	}
+
+	// Line ids are allocated in creation order: re-create the lines in the order of their ids so that
+	// the reversed graph (and its DOT rendering) does not depend on map iteration order.
+	slices.SortFunc(lines, func(a, b graph.Line) int { return cmp.Compare(a.ID(), b.ID()) })
+
+	for _, nextLine := range lines {
+		casted, ok := nextLine.(*AuthorizationModelEdge)
+		if !ok {
+			return nil, fmt.Errorf("%w: could not cast to AuthorizationModelEdge", ErrBuildingGraph)
 		}
+
+		graphBuilder.AddEdge(nextLine.To(), nextLine.From(), casted.edgeType, casted.tuplesetRelation, casted.conditions)
 	}
 
 	// Make a brand new copy of the map.
